@@ -58,6 +58,18 @@ StepEv(acc, k, c, P) ==
                 /\ ~(e.readback.ok /\ \A s2 \in next : SeqEq(e.readback.recs, s2.submitted)) THEN fail("C07.reader")
         ELSE [st |-> next, hdr |-> hdr, bad |-> "", donors |-> acc.donors]
 
+\* op = "flushvis": a Writer on a buffered real file; after Writer.flush() (nothing else touching the file object) the file is read
+\* through a second handle: c.file; c.records = the records submitted so far
+Judge_flushvis(c) ==
+  LET P == Parse(c.schema) IN
+  IF ~P.ok THEN << Cl("H.schema", "fail") >>
+  ELSE LET pf == ParseFile(c.file, c.hs, c.inflate)
+           o == [strict |-> FALSE, tuples |-> TRUE]
+           nrm == MapSeq(LAMBDA d : Norm(P.t, d, P.st.names, o), c.records)
+       IN IF \E i \in 1..Len(nrm) : ~nrm[i].ok THEN << Cl("H.conforms", "fail") >>
+          ELSE << Tri("C07.flush_reaches_stream", pf.ok /\ Len(pf.records) = Len(nrm)
+                                                  /\ \A i \in 1..Len(nrm) : VEq(pf.records[i], nrm[i].v)) >>
+
 Judge_whist(c) ==
   LET P == Parse(c.schema) IN
   IF ~P.ok THEN << Cl("H.schema", "fail") >>
